@@ -63,10 +63,10 @@ def isNeg (L : Literal) : Bool := L.sign = some true
 /-- `x * 10^e` for an integer `e` -/
 def scale10 (x : Rat) (e : Int) : Rat := if 0 ≤ e then x * (10 : Rat) ^ e.toNat else x / (10 : Rat) ^ (-e).toNat
 
-/-- the number the literal denotes -/
+/-- the number the literal denotes: digits / 10^(number of fraction digits) * 10^exponent -/
 def value (L : Literal) : Rat :=
-  let m : Rat := (valL (L.ip ++ L.fracDigits) : Nat)
-  let v := scale10 m (L.expValue - (L.fracDigits.length : Int))
+  let m : Rat := ((valL (L.ip ++ L.fracDigits) : Nat) : Rat) / (10 : Rat) ^ L.fracDigits.length
+  let v := scale10 m L.expValue
   if L.isNeg then -v else v
 
 end Literal
